@@ -34,6 +34,9 @@ type vStub struct {
 	confirmedErr bool // the confirmed-nonce query fails (the pending-nonce query still answers)
 	nonceAtCalls int
 	block       uint64
+	blockErr    error // the block-number query fails with this error …
+	blockErrN   int   // … this many more times
+	blockErrHit int   // times it did
 	monitorLive bool
 	accepted    []uint64 // nonces of transactions SendTransaction accepted, in order
 	offered     []uint64 // nonces of every transaction handed to SendTransaction
@@ -67,6 +70,11 @@ func (s *vStub) BlockNumber(context.Context) (uint64, error) {
 	defer s.mu.Unlock()
 	if !s.monitorLive {
 		return 0, errInjected
+	}
+	if s.blockErrN > 0 {
+		s.blockErrN--
+		s.blockErrHit++
+		return 0, s.blockErr
 	}
 	s.block++
 	return s.block, nil
